@@ -38,6 +38,9 @@ if mods:
         'LbzVerif.Props.C01.Roundtrip.roundtrip_empty',
         'LbzVerif.Props.C01.Roundtrip.assemble_sched',
         'LbzVerif.Props.C01.Roundtrip.roundtrip_sched',
+        'LbzVerif.Props.C01.Roundtrip.roundtrip_naive',
+        'LbzVerif.Props.C01.Roundtrip.choicesOK_satisfiable',
+        'LbzVerif.Props.C01.Roundtrip.roundtrip_sched_naive',
     ])
 inproc.run_libs(ck, ['w10_mtf', 'w11_prefix', 'w16_transmit', 'w23_roundtrip'])
 exe = ck.build_lbzip2(asan=False)
